@@ -70,9 +70,9 @@ fn val_b(w: &World, id: Id) -> Option<bool> {
     }
 }
 
-fn hints_key(c: &Circuit, sites: &[(Fq, bool, Fq, bool)]) -> String {
+fn hints_key(c: &Circuit, sites: &[Site]) -> String {
     let mut parts = Vec::new();
-    for (i, (den, f, y, changed)) in sites.iter().enumerate() {
+    for (i, (den, f, y, changed, _)) in sites.iter().enumerate() {
         if *changed {
             parts.push(format!("site{}({})", i, hint_class(den, *f, y)));
         }
@@ -101,9 +101,9 @@ fn decode_den(s: &Fq) -> Fq {
 
 /// Class of the hint actually used at the site that served the decode of `s`
 /// (first site at or after `from` whose denominator is the decode's).
-fn decode_site_class(s: &Fq, from: usize, sites: &[(Fq, bool, Fq, bool)]) -> String {
+fn decode_site_class(s: &Fq, from: usize, sites: &[Site]) -> String {
     let den = decode_den(s);
-    for (d, f, y, changed) in sites.iter().skip(from) {
+    for (d, f, y, changed, _) in sites.iter().skip(from) {
         if *d == den {
             return if *changed {
                 hint_class(d, *f, y)
@@ -118,7 +118,7 @@ fn decode_site_class(s: &Fq, from: usize, sites: &[(Fq, bool, Fq, bool)]) -> Str
 /// C14: on a satisfied system every recorded gadget application must be in
 /// the native relation. Values are whatever the (possibly lying) prover
 /// assigned; they are read only after satisfiability has been computed.
-fn judge_c14(w: &mut World, c: &Circuit, sat: Option<bool>, sites: &[(Fq, bool, Fq, bool)]) {
+fn judge_c14(w: &mut World, c: &Circuit, sat: Option<bool>, sites: &[Site]) {
     let dishonest = sites.iter().any(|s| s.3)
         || c.enc_hints.iter().any(|e| *e != EncSub::Honest)
         || w.out.faults.contains_key("offgroup_or_offcurve_coordinates_offered");
@@ -236,7 +236,7 @@ fn judge_c14(w: &mut World, c: &Circuit, sat: Option<bool>, sites: &[(Fq, bool, 
                         .iter()
                         .skip(*site_from)
                         .find(|s| s.0 == x)
-                        .map(|(d, f, y, ch)| if *ch { hint_class(d, *f, y) } else { "honest".into() })
+                        .map(|(d, f, y, ch, _)| if *ch { hint_class(d, *f, y) } else { "honest".into() })
                         .unwrap_or_else(|| "site_not_found".into());
                     let r = rd::check_sqrt_ratio(
                         &BigUint::from(1u32),
